@@ -508,7 +508,7 @@ Definition readPtr_tail (m : segs) (rl dsid : Z) (dst : seg) (base val depth : Z
 
 Lemma readPtr_unfold : forall m rl sid s paddr depth,
   readPtr true m rl sid s paddr depth =
-  match resolveFarPointer m sid s paddr with
+  match resolveFarPointer true m sid s paddr with
   | Err => (Err, rl)
   | Panic => (Panic, rl)
   | Ok (dsid, dst, base, val) => readPtr_tail m rl dsid dst base val depth
@@ -647,8 +647,9 @@ Proof.
   intros strict m d a v t H1 H2 H3 H4 H5. unfold spec_obj. rewrite H1, H2, H3, H4, H5. reflexivity.
 Qed.
 
-(* the one known deviation: a double-far pointer whose landing pad says "zero-sized struct at
-   word 0 of the target segment" (far offset 0, tag word 0) *)
+(* the deviation of the code AS FOUND (repaired in ../repo, switch [strict] of
+   resolveFarPointer): a double-far pointer whose landing pad says "zero-sized struct at
+   word 0 of the target segment" (far offset 0, tag word 0) was read as null *)
 Definition dfar_zero_pad (m : list (list Z)) (sid wa : Z) : bool :=
   match seg_at m sid with
   | None => false
@@ -758,13 +759,13 @@ Lemma readPtr_spec : forall m rl sid s wa depth,
   | None => none_case (in_words s wa 1 = true /\ segs_small m) rl (readPtr true m rl sid s (8 * wa) depth)
   | Some t =>
     (exists dsid, readPtr true m rl sid s (8 * wa) depth =
-                  (if dfar_zero_pad m sid wa then (Ok nullPtr, rl) else tail_expect rl depth dsid t) /\ list_repr t)
+                  tail_expect rl depth dsid t /\ list_repr t)
     \/ (never_ok (readPtr true m rl sid s (8 * wa) depth) /\ ~ (segs_small m /\ list_repr t))
   end.
 Proof.
   intros m rl sid s wa depth Hb Hs.
   pose proof (seg_at_ok _ _ _ Hb Hs) as Hok.
-  rewrite readPtr_unfold. unfold spec_resolve, dfar_zero_pad. rewrite Hs. cbv zeta.
+  rewrite readPtr_unfold. unfold spec_resolve. rewrite Hs. cbv zeta.
   destruct (in_words s wa 1) eqn:IW; cbn [negb].
   2:{ unfold resolveFarPointer. destruct (readRawPointer s (8 * wa)) as [v| |] eqn:RR; cbn [bind].
       - apply readRawPointer_inv in RR. unfold in_words in IW. lia.
@@ -772,7 +773,7 @@ Proof.
       - split; [apply never_ok_panic|intros [Q _]; discriminate]. }
   unfold in_words in IW.
   destruct (8 * wa + 8 <? 4294967296) eqn:SM.
-  2:{ assert (NO : never_ok match resolveFarPointer m sid s (8 * wa) with
+  2:{ assert (NO : never_ok match resolveFarPointer true m sid s (8 * wa) with
                             | Ok (dsid, dst, base, val) => readPtr_tail m rl dsid dst base val depth
                             | Err => (Err, rl) | Panic => (Panic, rl) end).
       { unfold resolveFarPointer. destruct (readRawPointer s (8 * wa)) as [v| |] eqn:RR; cbn [bind].
@@ -817,7 +818,6 @@ Proof.
   pose proof (seg_at_ok _ _ _ Hb Hps) as Hokps.
   destruct (far_two w =? 0) eqn:F2.
   - (* single far *)
-    assert (F1 : (far_two w =? 1) = false) by lia. rewrite F1. cbv iota.
     replace (2 + 4 * far_two w) with 2 by lia. cbn [Z.eqb Pos.eqb bind].
     unfold regionInBounds, addSize, in_words, maxSegmentSize, zlen. cbv zeta.
     destruct ((0 <=? pa) && (8 * (pa + 1) <=? blen ps)) eqn:IP.
@@ -839,7 +839,6 @@ Proof.
         intros [S L]. apply NG. split; [eapply seg_at_small; eauto|exact L].
     + rewrite T. apply none_err.
   - (* double far *)
-    assert (F1 : (far_two w =? 1) = true) by lia. rewrite F1. cbn [andb].
     replace (2 + 4 * far_two w) with 6 by lia. cbn [Z.eqb Pos.eqb bind].
     unfold regionInBounds, addSize, in_words, maxSegmentSize, zlen. cbv zeta.
     destruct ((0 <=? pa) && (8 * (pa + 2) <=? blen ps)) eqn:IP.
@@ -869,19 +868,30 @@ Proof.
     destruct (landing_fields f t Hf Ht F20 KT) as (Hwl & L1 & L2 & L3 & L4 & L5 & L6).
     pose proof (landing_zero_iff f t Hf Ht F20 KT O0) as LZ.
     set (v := landingPadNearPointer f t) in *.
-    change (readPtr_tail m rl (far_seg f) ds 0 v depth) with (readPtr_tail m rl (far_seg f) ds (8 * (-1 + 1)) v depth).
-    pose proof (tail_spec m rl (far_seg f) ds (-1) v depth Hds Hokds Hwl) as T.
-    unfold spec_near in T.
+    cbv zeta. cbn [andb].
     destruct (v =? 0) eqn:V0.
-    + (* the deviation: the pad says "empty struct at word 0", the code answers null *)
-      rewrite <- LZ. cbv iota.
+    + (* the pad says "empty struct at word 0": the repaired code passes on the equivalent
+         non-zero encoding (base 8, struct pointer with offset -1 and empty sections) *)
       assert (Et : t = 0) by lia. assert (Ef : far_off f = 0) by lia.
       rewrite Et, Ef. rewrite (spec_obj_zero false m (far_seg f) ds Hds).
+      change (rawStructPointer (-1) (mkOS 0 0)) with (Some 4294967292). cbv iota.
+      change (readPtr_tail m rl (far_seg f) ds wordSize 4294967292 depth)
+        with (readPtr_tail m rl (far_seg f) ds (8 * (0 + 1)) 4294967292 depth).
+      assert (Hw4 : word64 4294967292) by (unfold word64; lia).
+      pose proof (tail_spec m rl (far_seg f) ds 0 4294967292 depth Hds Hokds Hw4) as T.
+      unfold spec_near in T.
+      change (4294967292 =? 0) with false in T. change (ptr_kind 4294967292 =? 3) with false in T.
+      change (ptr_kind 4294967292 =? 2) with false in T. cbv iota in T.
+      change (0 + 1 + off30 4294967292) with 0 in T.
+      rewrite (spec_obj_same_fields false m (far_seg f) 0 4294967292 0) in T by reflexivity.
+      rewrite (spec_obj_zero false m (far_seg f) ds Hds) in T.
       destruct T as (W & I & [E|[E NG]]).
-      * left. exists (far_seg f). split; [exact (proj1 E)|exact Logic.I].
+      * left. exists (far_seg f). exact E.
       * right. split; [rewrite E; apply never_ok_err|].
-        intros [S L]. apply NG. split; [eapply seg_at_small; eauto|exact Logic.I].
-    + rewrite <- LZ. cbv iota.
+        intros [S L]. apply NG. split; [eapply seg_at_small; eauto|exact L].
+    + change (readPtr_tail m rl (far_seg f) ds 0 v depth) with (readPtr_tail m rl (far_seg f) ds (8 * (-1 + 1)) v depth).
+      pose proof (tail_spec m rl (far_seg f) ds (-1) v depth Hds Hokds Hwl) as T.
+      unfold spec_near in T. rewrite V0 in T.
       assert (K3 : (ptr_kind v =? 3) = false) by lia. assert (K2' : (ptr_kind v =? 2) = false) by lia.
       rewrite K3, K2' in T.
       replace (-1 + 1 + off30 v) with (far_off f) in T by lia.
@@ -907,9 +917,8 @@ Theorem read_ptr_sound : forall m rl sid s wa depth p rl',
   bytes_ok m -> lookup_segment m sid = Ok s -> 0 <= rl ->
   readPtr true m rl sid s (8 * wa) depth = (Ok p, rl') ->
   exists t, spec_resolve false m sid wa = Some t /\ tgt_wf t /\ tgt_inside m t /\
-    if dfar_zero_pad m sid wa then p = nullPtr /\ rl' = rl
-    else p = ptr_of_target (uint_dec depth) (p_seg p) t /\ rl' = rl - tgt_cost t /\ tgt_cost t <= rl /\
-         list_repr t /\ (t = TgtNull \/ depth <> 0).
+    p = ptr_of_target (uint_dec depth) (p_seg p) t /\ rl' = rl - tgt_cost t /\ tgt_cost t <= rl /\
+    list_repr t /\ (t = TgtNull \/ depth <> 0).
 Proof.
   intros m rl sid s wa depth p rl' Hb Hl Hrl H.
   assert (Hs : seg_at m sid = Some s).
@@ -920,9 +929,8 @@ Proof.
   destruct (spec_resolve_facts _ _ _ _ _ SR) as [W I].
   exists t. split; [reflexivity|]. split; [exact W|]. split; [exact I|].
   destruct M as [[dsid [E LR]]|[NO _]]; [|exfalso; exact (NO p rl' H)].
-  rewrite H in E. destruct (dfar_zero_pad m sid wa).
-  - apply pair_ok_inv in E. exact E.
-  - unfold tail_expect in E. destruct t as [|i|seg a dw pc|seg a e n dw pc].
+  rewrite H in E.
+  { unfold tail_expect in E. destruct t as [|i|seg a dw pc|seg a e n dw pc].
     + apply pair_ok_inv in E. destruct E as [E1 E2]. cbn [ptr_of_target tgt_cost].
       split; [exact E1|]. split; [lia|]. split; [lia|]. split; [exact LR|]. left; reflexivity.
     + destruct (depth =? 0) eqn:D; [discriminate|]. apply pair_ok_inv in E. destruct E as [E1 E2].
@@ -935,25 +943,25 @@ Proof.
     + destruct (depth =? 0) eqn:D; [discriminate|].
       destruct (rl >=? tgt_cost (TgtList seg a e n dw pc)) eqn:C; [|discriminate].
       apply pair_ok_inv in E. destruct E as [E1 E2]. subst p. cbn [ptr_of_target p_seg].
-      split; [reflexivity|]. split; [lia|]. split; [lia|]. split; [exact LR|]. right; lia.
+      split; [reflexivity|]. split; [lia|]. split; [lia|]. split; [exact LR|]. right; lia. }
 Qed.
 
 (* Completeness: whatever the specification resolves -- in a message whose segments fit the
-   32-bit address space, with a representable element count, outside the one deviation, with
+   32-bit address space, with a representable element count, with
    depth and budget left -- readPtr returns, as exactly that Ptr, charging exactly its size. *)
 Theorem read_ptr_complete : forall m rl sid s wa depth t,
   bytes_ok m -> segs_small m -> lookup_segment m sid = Ok s ->
-  spec_resolve false m sid wa = Some t -> list_repr t -> dfar_zero_pad m sid wa = false ->
+  spec_resolve false m sid wa = Some t -> list_repr t ->
   (t = TgtNull \/ depth <> 0) -> tgt_cost t <= rl ->
   exists cs, readPtr true m rl sid s (8 * wa) depth =
              (Ok (ptr_of_target (uint_dec depth) cs t), rl - tgt_cost t).
 Proof.
-  intros m rl sid s wa depth t Hb Hsm Hl SR LR DZ HD HC.
+  intros m rl sid s wa depth t Hb Hsm Hl SR LR HD HC.
   assert (Hs : seg_at m sid = Some s).
   { rewrite lookup_seg_at in Hl. destruct (seg_at m sid); [inversion Hl; reflexivity|discriminate]. }
   pose proof (readPtr_spec m rl sid s wa depth Hb Hs) as M. rewrite SR in M.
   destruct M as [[dsid [E _]]|[_ N]]; [|exfalso; apply N; split; assumption].
-  rewrite DZ in E. exists dsid. rewrite E. unfold tail_expect.
+  exists dsid. rewrite E. unfold tail_expect.
   destruct t as [|i|seg a dw pc|seg a e n dw pc].
   - cbn [tgt_cost ptr_of_target]. rewrite Z.sub_0_r. reflexivity.
   - destruct HD as [HD|HD]; [discriminate|]. destruct (depth =? 0) eqn:D; [lia|].
@@ -1019,9 +1027,7 @@ Theorem read_ptr_inside : forall m rl sid s wa depth p rl',
 Proof.
   intros m rl sid s wa depth p rl' Hb Hl Hrl H.
   destruct (read_ptr_sound _ _ _ _ _ _ _ _ Hb Hl Hrl H) as (t & SR & W & I & C).
-  destruct (dfar_zero_pad m sid wa).
-  - destruct C as [-> _]. intro V. discriminate.
-  - destruct C as (-> & _). apply target_ptr_inside; assumption.
+  destruct C as (-> & _). apply target_ptr_inside; assumption.
 Qed.
 
 (* ------------------------------------------------------------------ accessors_spec: structs *)
